@@ -288,9 +288,13 @@ PROPS["C13"] = dict(
          "no-healthy-backend requests with overlaps, Metrics snapshots (drained first in most of them); the monitors are computed from the "
          "trace alone (own tallies of begins, dispatches and ends per name); non-trivial = >= 2 quiescent snapshots; distinct = by case hash",
     level_text="Theorems for every configuration and history of the composite model: conservation total = successful + failed + "
-               "rate_limited + in-flight (hence the partition at quiescence) and total = number of requests. Per-backend totals and gauges "
-               "are monitored from the trace's own tallies on every implementation run. Tie: the real /metrics snapshot structure "
-               "(MetricsCollector.GetMetrics) compared field by field with the model.",
+               "rate_limited + in-flight (hence the partition at quiescence); total = number of requests; for every *Backend object, "
+               "pooled or removed, ActiveConnections = requests in flight on it (zero when idle); per-name total + in flight = number "
+               "of dispatches to objects of that name, each completed one counted as exactly one of successful/failed. The published "
+               "by-name gauge: the full statement is REFUTED by a witness history (the known finding), and proved on every history "
+               "that does not add a name again while a removed backend of that name is still draining (C13_published_gauge_partial). "
+               "The same four quantities are monitored from the trace's own tallies on every implementation run. Tie: the real "
+               "/metrics snapshot structure (MetricsCollector.GetMetrics) compared field by field with the model.",
     level_note=_LB_NOTE + " uint64/int32 counter widths and the 1000-name cap are out of scope.",
     trusted_base=_LB_TRUST, assumptions=["fewer than 1000 distinct backend names"],
 )
